@@ -1233,6 +1233,8 @@ castexpr(struct scope *s)
 		}
 		if (t != &typevoid && !(t->prop & PROPSCALAR))
 			error(&tok.loc, "cast type must be scalar");
+		if (t != &typevoid && t->incomplete)
+			error(&tok.loc, "cast type is incomplete");
 		e = mkexpr(EXPRCAST, t, NULL);
 		e->toeval = toeval;
 		*end = e;
